@@ -99,12 +99,20 @@ def deriv_to_raw(d):
     return shapelib.Raw(r, [deriv_to_raw(c) if isinstance(c, tuple) else c for c in ch])
 
 
-def deriv_priority(d, term_prio=None):
+def declared_priorities(g):
+    """priorities as the grammar *text* declares them (`name.N:`), for rules and terminals — not as lark compiled them into RuleOptions/TerminalDef"""
+    import re as _re
+    return {n: int(p) for n, p in _re.findall(r'^\s*[?!]*([A-Za-z_][A-Za-z_0-9]*)\.(-?\d+)\s*:', g, _re.M)}
+
+
+def deriv_priority(d, term_prio=None, declared=None):
+    """total priority of a derivation; with `declared` (from the grammar text) every alternative of a rule — the compiled variants of `[x]`/`x?` included —
+    counts the priority written on that rule, helper rules count 0"""
     r, ch = d
-    p = r.options.priority or 0
+    p = (r.options.priority or 0) if declared is None else declared.get(str(r.origin.name), 0)
     for c in ch:
         if isinstance(c, tuple):
-            p += deriv_priority(c, term_prio)
+            p += deriv_priority(c, term_prio, declared)
         elif term_prio:
             p += term_prio.get(c.type, 0)
     return p
@@ -275,6 +283,7 @@ def _forest_case(args):
     except (GrammarError, LarkError) as e:
         rec['gerr'] = str(e)[:100]; return rec
     rules = base.rules
+    decl = declared_priorities(g)
     rec['acyclic'] = oracle_derivs.acyclic(rules)
     rec['has_empty_rule'] = has_empty_rule(rules)
     texts = []
@@ -475,8 +484,8 @@ def _forest_case(args):
                             def orig(d):
                                 r, ch = d
                                 return (by_key[(str(r.origin.name), tuple(s.name for s in r.expansion))], [orig(c) if isinstance(c, tuple) else c for c in ch])
-                            tp = {t_.name: t_.priority for t_ in base.terminals} if lexer != 'basic' else None
-                            run['resolve'][str(mode)] = {'tree': json.dumps(canon_tree(t)), 'deriv': json.dumps(canon_deriv(orig(chosen))), 'priority': deriv_priority(orig(chosen), tp),
+                            tp = {t_.name: decl.get(t_.name, 0) for t_ in base.terminals} if lexer != 'basic' else None
+                            run['resolve'][str(mode)] = {'tree': json.dumps(canon_tree(t)), 'deriv': json.dumps(canon_deriv(orig(chosen))), 'priority': deriv_priority(orig(chosen), tp, decl),
                                                          'empty_over_nonempty': empty_preference(chosen, rules)}
                             if mode == 'normal':
                                 pf = Lark(g, parser='earley', lexer=lexer, ambiguity='forest', maybe_placeholders=mp)
@@ -490,8 +499,8 @@ def _forest_case(args):
                 except Timeout:
                     run['resolve'][str(mode)] = {'timeout': True}
             if derivs is not None:
-                tp = {t_.name: t_.priority for t_ in base.terminals} if lexer != 'basic' else None
-                run['deriv_priorities'] = [deriv_priority(d, tp) for d in derivs]
+                tp = {t_.name: decl.get(t_.name, 0) for t_ in base.terminals} if lexer != 'basic' else None
+                run['deriv_priorities'] = [deriv_priority(d, tp, decl) for d in derivs]
         rec['runs'].append(run)
     return rec
 
